@@ -342,3 +342,26 @@ var Parser chain.Parser = simParser{}
 func Sponsors() []*auth.ED25519Factory { return sponsors() }
 
 func SimKey(name byte, chunks uint16) []byte { return simKey(name, chunks) }
+
+// memoBH is a balance handler that hands out one cached key set per sponsor (an implementation is free
+// to do so): callers must treat the returned map as read-only.
+type memoBH struct {
+	chain.BalanceHandler
+	mu    sync.Mutex
+	cache map[codec.Address]state.Keys
+}
+
+func NewMemoBH(inner chain.BalanceHandler) chain.BalanceHandler {
+	return &memoBH{BalanceHandler: inner, cache: map[codec.Address]state.Keys{}}
+}
+
+func (m *memoBH) SponsorStateKeys(addr codec.Address) state.Keys {
+	m.mu.Lock()
+	defer m.mu.Unlock()
+	k, ok := m.cache[addr]
+	if !ok {
+		k = m.BalanceHandler.SponsorStateKeys(addr)
+		m.cache[addr] = k
+	}
+	return k
+}
